@@ -24,6 +24,10 @@ Definition hem_integrate_x INF lam p eta1 eta2 : R -> R -> R :=
 Definition hem_integrate_xx INF lam p eta1 eta2 : R -> R -> R :=
   hem_integrate_xx_F (hem_integrate_xx_F dflt INF lam p eta1 eta2) INF lam p eta1 eta2.
 
+(* half-line masses: Python evaluates the same expression with np.exp(-inf) = 0.0 *)
+Definition hem_integrate_left lam p eta2 b : R := lam * (1 - p) * exp (eta2 * b).
+Definition hem_integrate_right lam p eta1 a : R := lam * p * exp (- eta1 * a).
+
 (* ---------------------------------------------------------------- special functions, by their meaning *)
 Definition erf (x : R) : R := 2 / sqrt PI * RInt (fun t => exp (- t ^ 2)) 0 x.
 (* E1(x) - E1(y) for 0 < x, y : the only way exp1 enters on finite intervals *)
